@@ -1405,6 +1405,143 @@ def part_bitflip(run, rng, be, count, tag="bitflip", executions=1, only=None):
         run.oblige(f"test:{tag}_views_consistent", True, "test")
 
 
+# ------------------------------------------------------------------ part H2: the post-hoc accessor result.apply_bitflips(p0, p1)
+def bitflip_accessor_case(run, be, tag, i):
+    """one result (state vector / density matrix / shot-by-shot), the eight views and apply_bitflips calls
+    (deterministic maps: every probability 0 or 1, all argument forms; 0->1 and 1->0 maps different) in
+    random order, frequencies possibly first.  The returned array must be the result's OWN samples with
+    exactly the mapped columns flipped (exact, Coq flip_shot01), and the call must be pure: every view read
+    before or after it is explained by the same list of shots, which is what the object still holds."""
+    from qibo import Circuit, gates
+    crng = random.Random(f"{run.seed}:{tag}:{i}")
+    n = crng.randint(1, 3)
+    regs = random_registers(crng, n)
+    Q = [q for reg in regs for q in reg]
+    mode = ("sv", "dm", "repeated")[i % 3]
+    c = Circuit(n, density_matrix=(mode == "dm"))
+    if mode == "repeated":
+        c.add(gates.M(crng.randrange(n), collapse=True))
+    for reg in regs:
+        c.add(gates.M(*reg))
+    ints, j = dyadic_state(crng, n)
+    psi = np.array(ints, dtype=complex) / 2 ** j
+    ns = crng.randint(1, 8)
+    be.set_seed(crng.randrange(2 ** 31))
+    with np.errstate(all="ignore"):
+        r = c(initial_state=(np.outer(psi, psi.conj()) if mode == "dm" else psi), nshots=ns)
+    info = {"part": tag, "case": i, "mode": mode, "n": n, "registers": regs, "state_times_2^j": [str(a) for a in ints], "j": j, "nshots": ns, "calls": []}
+    cfg = f"(mkcfg {n}%nat {nat_list_list(regs)})"
+    views = [(kind, b, rg) for kind in ("samples", "freqs") for b in (True, False) for rg in (True, False)]
+    crng.shuffle(views)
+    script = [("view",) + v for v in views[: crng.randint(3, 8)]]
+    for _ in range(crng.randint(1, 3)):
+        script.insert(crng.randint(0 if i % 2 else 1, len(script)), ("flip",))
+    outs = []
+    for step in script:
+        if step[0] == "view":
+            _, kind, b, rg = step
+            v = r.samples(binary=b, registers=rg) if kind == "samples" else r.frequencies(binary=b, registers=rg)
+            if rg and (not isinstance(v, dict) or isinstance(v, collections.Counter)):
+                continue
+            outs.append(("view", kind, b, rg, out_term(kind, b, rg, v, c.measurements)))
+            info["calls"].append(f"{kind}(binary={b}, registers={rg})")
+        else:
+            m0 = [crng.randint(0, 1) for _ in Q]
+            m1 = [crng.randint(0, 1) for _ in Q] if crng.random() < 0.6 else None
+
+            def form(m):
+                t = crng.random()
+                if len(set(m)) == 1 and t < 0.4:
+                    return float(m[0])
+                if t < 0.7:
+                    return {q: float(x) for q, x in zip(Q, m) if x or crng.random() < 0.5}
+                return [float(x) for x in m] if t < 0.85 else tuple(float(x) for x in m)
+            p0, p1 = form(m0), (None if m1 is None else form(m1))
+            v = r.apply_bitflips(p0) if p1 is None else r.apply_bitflips(p0, p1)
+            a = np.asarray(v)
+            dec = [int("".join(str(int(x)) for x in row) or "0", 2) for row in a.tolist()] if a.ndim == 2 and a.shape[1] == len(Q) else None
+            outs.append(("flip", m0, m0 if m1 is None else m1, dec, a.shape))
+            info["calls"].append(f"apply_bitflips({p0!r}, {p1!r}) -> {a.tolist()}")
+    S = [int(x) for x in np.asarray(r.samples(binary=False)).tolist()]
+    info["samples"] = S
+    items = [("count", f"(length {nat_list(S)} =? {ns})%nat")]
+    for t, o in enumerate(outs):
+        if o[0] == "view":
+            _, kind, b, rg, term = o
+            op = (f"Samples 0%nat {b2s(b)} {b2s(rg)} (@nil nat)" if kind == "samples" else f"Freqs 0%nat {b2s(b)} {b2s(rg)} (@nil (nat * nat))")
+            items.append((f"purity:{t}:{kind}:{b}:{rg}", f"explainsb {cfg} (@nil Z) {nat_list(S)} ({op}) ({term})"))
+        else:
+            _, m0, m1, dec, shape = o
+            if dec is None:
+                items.append((f"flips:{t}:shape", "false"))
+            else:
+                items.append((f"flips:{t}", f"list_eqb Nat.eqb (map (flip_shot01 {len(Q)}%nat {bits_lit(m0)} {bits_lit(m1)}) {nat_list(S)}) {nat_list(dec)}"))
+    return info, items
+
+
+def part_bitflip_accessor(run, rng, be, count, tag="bitflip_accessor", only=None):
+    all_items, meta = [], []
+    for i in (range(count) if only is None else only):
+        try:
+            info, items = bitflip_accessor_case(run, be, tag, i)
+        except Exception as e:  # noqa
+            run.find(f"{tag}:raised", "result.apply_bitflips / reading the views raised: " + repr(e)[:200], {"part": tag, "case": i})
+            continue
+        run.case({tag: info}, True)
+        if i == 0:
+            run.sample(info)
+        for label, term in items:
+            all_items.append((f"{tag}{i}:{label}", term))
+            meta.append((f"{tag}{i}:{label}", label, info))
+    res = {}
+    for ci in range(0, len(all_items), 400):
+        part, _ = run.coq_bools(f"{tag}_{ci // 400}.v", HEADER, all_items[ci:ci + 400], timeout=900)
+        if part is None:
+            run.find(f"{tag}:coq-failed", "generated file did not compile", {}, concrete=False)
+            return
+        res.update(part)
+    ok = True
+    for label, short, info in meta:
+        if not res[label]:
+            ok = False
+            kind = short.split(":")[0]
+            what = {"count": "number of samples differs from nshots",
+                    "flips": "result.apply_bitflips(p0, p1) with a deterministic map did not return the result's own samples with exactly the mapped columns flipped (0->1 where p0=1, 1->0 where p1=1)",
+                    "purity": "a view of the result read before / after result.apply_bitflips is not explained by the samples the result holds: the accessor changed the result (or views disagree)"}[kind]
+            run.find(f"{tag}:{kind}" + (":" + ":".join(short.split(":")[2:]) if kind == "purity" else ""), what, dict(info, failed=short))
+    # distribution of the fractional flips (statistical, fixed seeds): |0..0> gains ones at rate p0, |1..1> loses them at rate p1
+    from qibo import Circuit, gates
+    dist_ok = True
+    for t, (p0, p1) in enumerate([(0.25, 0.0), (0.0, 0.5), (0.5, 0.125), ({0: 0.75}, {1: 0.25})] if only is None else []):
+        crng = random.Random(f"{run.seed}:{tag}:dist:{t}")
+        c = Circuit(2)
+        c.add(gates.X(0))
+        c.add(gates.M(0, 1))
+        ns = 6000
+        be.set_seed(crng.randrange(2 ** 31))
+        r = c(nshots=ns)
+        before = np.array(r.samples(), copy=True)
+        noisy = np.asarray(r.apply_bitflips(p0, p1))
+        after = np.asarray(r.samples())
+        info = {"part": tag, "distribution": t, "p0": repr(p0), "p1": repr(p1), "nshots": ns, "state": "|10>"}
+        run.case({tag: info}, True)
+        if not np.array_equal(before, after):
+            dist_ok = False
+            run.find(f"{tag}:purity:samples", "result.samples() changed after result.apply_bitflips(p0, p1)", info)
+        P0 = [p0.get(q, 0.0) for q in (0, 1)] if isinstance(p0, dict) else [p0, p0]
+        P1 = [p1.get(q, 0.0) for q in (0, 1)] if isinstance(p1, dict) else [p1, p1]
+        # qubit 0 is 1 (loses at rate p1[0]); qubit 1 is 0 (gains at rate p0[1])
+        for col, (rate, flipped) in enumerate([(P1[0], np.sum(noisy[:, 0] == 0)), (P0[1], np.sum(noisy[:, 1] == 1))]):
+            sigma = (ns * rate * (1 - rate)) ** 0.5
+            if abs(flipped - ns * rate) > 5 * sigma + 1e-9:
+                dist_ok = False
+                run.find(f"{tag}:distribution", f"column {col}: {int(flipped)} of {ns} shots flipped, expected rate {rate} (more than 5 sigma away)", dict(info, column=col, flipped=int(flipped)))
+    if only is None:
+        run.oblige(f"test:{tag}_flip_rates_within_5_sigma", dist_ok, "test")
+    if ok and not any(f.key.startswith(tag + ":") for f in run.findings):
+        run.oblige(f"test:{tag}_exact_and_pure", True, "test")
+
+
 # ------------------------------------------------------------------ part I: gates conditioned on several collapsed outcomes
 def conditioned_case(run, be, i):
     """>= 2 collapsing measurements in one circuit, X-prepared basis state so that their outcomes
@@ -1653,6 +1790,10 @@ RULE = ("probabilities: random n<=5, random duplicate-free ordered qubit lists (
         "every shot's recorded and final register outcomes compared with the exact per-shot model.  bitflip: measurement registers with "
         "bit-flip maps (2/3 deterministic p in {0,1} per qubit: noisy samples = noiseless draws with exactly those bits flipped, exact; 1/3 "
         "fractional p: consistency only), all eight views in random order judged by the Coq oracle against the result's own samples.  "
+        "bitflip_accessor: the post-hoc accessor result.apply_bitflips(p0, p1) on state-vector / density-matrix / shot-by-shot results, deterministic maps in every "
+        "argument form (float, dict, list, tuple; p1 given or defaulted), 1-3 calls interleaved with 3-8 views in random order (frequencies possibly first): returned array = own "
+        "samples with exactly the mapped columns flipped (exact), every view before/after explained by the samples the result holds (purity); fractional maps: flip rates of 6000 shots "
+        "within 5 sigma (test).  "
         "conditioned: 2-3 collapsing measurements (1-2 qubits each, outcomes determined by X preparation and differing between the first two), "
         "RX gates whose angle is pi times an integer combination of symbols of different measurements (same bit index in different gates), "
         "state vector and density matrix, per shot recorded outcomes / angles received / final samples against the model.  batches: "
@@ -1661,8 +1802,8 @@ RULE = ("probabilities: random n<=5, random duplicate-free ordered qubit lists (
 
 def budgets(tier):
     if tier == "thorough":
-        return {"probs": 480, "conv": 200, "views": 900, "collapse": 300, "direct": 240, "symbols": 60, "repeated": 120, "bookkeeping": 600, "bitflip": 300, "conditioned": 300, "batches": 240}
-    return {"probs": 150, "conv": 60, "views": 160, "collapse": 70, "direct": 60, "symbols": 20, "repeated": 30, "bookkeeping": 120, "bitflip": 60, "conditioned": 60, "batches": 60}
+        return {"probs": 480, "conv": 200, "views": 900, "collapse": 300, "direct": 240, "symbols": 60, "repeated": 120, "bookkeeping": 600, "bitflip": 300, "bitflip_accessor": 400, "conditioned": 300, "batches": 240}
+    return {"probs": 150, "conv": 60, "views": 160, "collapse": 70, "direct": 60, "symbols": 20, "repeated": 30, "bookkeeping": 120, "bitflip": 60, "bitflip_accessor": 90, "conditioned": 60, "batches": 60}
 
 
 def static_obligations(run, theory):
@@ -1726,6 +1867,7 @@ def main(run):
     safe_part(run, "repeated", lambda: part_repeated(run, rng, be, b["repeated"]))
     safe_part(run, "bookkeeping", lambda: part_bookkeeping(run, rng, be, b["bookkeeping"]))
     safe_part(run, "bitflip", lambda: part_bitflip(run, rng, be, b["bitflip"]))
+    safe_part(run, "bitflip_accessor", lambda: part_bitflip_accessor(run, rng, be, b["bitflip_accessor"]))
     safe_part(run, "conditioned", lambda: part_conditioned(run, rng, be, b["conditioned"]))
     safe_part(run, "batches", lambda: part_batches(run, rng, be, b["batches"]))
     return run.finish(rule=RULE)
@@ -1754,6 +1896,11 @@ def replay(run, data):
         part_batches(run, None, be, 0, only=[i])
     elif part == "bitflip":
         part_bitflip(run, None, be, 0, only=[i])
+    elif part == "bitflip_accessor":
+        if i is None:
+            part_bitflip_accessor(run, None, be, 0)
+        else:
+            part_bitflip_accessor(run, None, be, 0, only=[i])
     elif part == "bookkeeping":
         part_bookkeeping(run, None, be, 0, only=[i])
     elif part == "repeated":
